@@ -15,6 +15,7 @@ def regenerate(hdir):
     text = r.stdout.decode()
     # mutable static storage of the library objects (nm on the freshly built objects)
     syms = mutable_statics(os.path.join(hdir, "obj"))
+    text += "\n" + create_dispatch() + "\n"
     text += "\n/-- symbols in writable sections of the library objects, minus the allow-list -/\n"
     text += "def mutableStatics : List String := [" + ", ".join('"%s"' % s for s in syms) + "]\n\nend AsamCmp.Generated\n"
     p = os.path.join(core.LEAN, "AsamCmp", "Generated.lean")
@@ -40,3 +41,34 @@ def mutable_statics(objdir):
                 continue
             out.add(name)
     return sorted(out)
+
+
+def _strip_comments(src):
+    import re
+    src = re.sub(r"/\*.*?\*/", " ", src, flags=re.S)
+    return re.sub(r"//[^\n]*", " ", src)
+
+
+def create_dispatch():
+    """Source-level translation of the dispatch table of `Packet::create` (src/packet.cpp): for every `case PayloadType::X:` the class
+    whose `isValidPayload` guards the branch and the class that is constructed.  A branch that validates with one class and
+    constructs another (the repaired defect D3) shows here at build time, before any sampling."""
+    import re
+    src = _strip_comments(open(os.path.join(core.REPO, "src", "packet.cpp"), "rb").read().decode(errors="replace").replace("\r", ""))
+    m = re.search(r"Packet::create\s*\([^)]*\)\s*\{(.*?)\n\}", src, re.S)
+    rows = []
+    if m:
+        body = m.group(1)
+        for c in re.finditer(r"case\s+PayloadType::(\w+)\s*:\s*if\s*\(\s*(\w+)::isValidPayload\s*\(\s*data\s*,\s*size\s*\)\s*\)\s*return\s+std::make_unique<\s*(\w+)\s*>\s*\(\s*data\s*,\s*size\s*\)\s*;\s*break\s*;", body):
+            rows.append(c.groups())
+        has_default = bool(re.search(r"default\s*:\s*return\s+std::make_unique<\s*Payload\s*>\s*\(\s*type\s*,\s*data\s*,\s*size\s*\)\s*;", body))
+        has_fallback = bool(re.search(r"return\s+std::make_unique<\s*Payload\s*>\s*\(\s*PayloadType::invalid\s*,\s*data\s*,\s*size\s*\)\s*;\s*$", body.strip()))
+        n_cases = len(re.findall(r"\bcase\b", body))
+    else:
+        has_default = has_fallback = False
+        n_cases = -1
+    out = "/-- dispatch table of `Packet::create`, translated from src/packet.cpp: (case, validating class, constructed class) -/\n"
+    out += "def createDispatch : List (String × String × String) := [" + ", ".join('("%s", "%s", "%s")' % r for r in rows) + "]\n"
+    out += "/-- number of `case` labels in `Packet::create`; unknown types are kept generic; rejected payloads become `PayloadType::invalid` -/\n"
+    out += "def createShape : Nat × Bool × Bool := (%d, %s, %s)\n" % (n_cases, "true" if has_default else "false", "true" if has_fallback else "false")
+    return out
